@@ -1,4 +1,171 @@
-import DisjointImpls.Lemmas.Refine
+/-
+  C11 — the grouping front end (`ImplGroups::parse`, model `Group.lean`): property theorems about an accepted
+  grouping `parseGroups items = .ok groups`. Proofs are in `Lemmas/GroupLemmas.lean`.
+
+  A group is `(id, abg, members)`: the family header, the dispatch keys with one row of bindings per member,
+  and the member blocks. `parseEnv items` is the environment the search runs in (buckets by header and the
+  generalisation pairs of `make_sets`).
+
+  Part 1: what the candidate filter guarantees. Part 2: invariants of the backtracking search, proved once for
+  any per-group property that `ABG.new` establishes and `intersection` preserves (`SearchInv`, `search_inv`).
+-/
+import DisjointImpls.Lemmas.GroupLemmas
 namespace DI
-theorem C11_placeholder : (1 : Nat) = 1 := rfl
+
+/-! ## Part 1 — the candidate filter -/
+
+/-- every family has at least one dispatch key -/
+theorem C11_keys_nonempty (items : List T) (groups : Groups) (h : parseGroups items = .ok groups) :
+    ∀ e ∈ groups, e.2.1.bounds ≠ [] := by
+  intro e he
+  obtain ⟨_, _, _, h1, _⟩ := parseGroups_group' h he (rowsAligned_inv _)
+  exact h1
+
+/-- the rows of a family are pairwise distinguishable: no member's row of payloads generalises another's -/
+theorem C11_rows_distinguishable (items : List T) (groups : Groups) (h : parseGroups items = .ok groups) :
+    ∀ e ∈ groups, e.2.1.isOverlapping = false ∧
+      ∀ (i j : Nat) (a b : List (Option T)), i ≠ j → e.2.1.payloads[i]? = some a → e.2.1.payloads[j]? = some b →
+        rowGeneralises a b = false := by
+  intro e he
+  obtain ⟨_, _, _, _, h2⟩ := parseGroups_group' h he (rowsAligned_inv _)
+  exact ⟨h2, isOverlapping_false h2⟩
+
+/-- every key that is kept has a binding in some member's row (`prune_non_assoc`) -/
+theorem C11_every_key_has_a_binding (items : List T) (groups : Groups) (h : parseGroups items = .ok groups) :
+    ∀ e ∈ groups, ∀ kr ∈ e.2.1.bounds, ∃ r ∈ kr.2, r ≠ [] := by
+  intro e he kr hkr
+  obtain ⟨e0, _, rfl, _, _⟩ := parseGroups_group' h he (rowsAligned_inv _)
+  simp only [ABG.prune, List.mem_filter, List.any_eq_true, Bool.not_eq_true', List.isEmpty_eq_false_iff] at hkr
+  exact hkr.2
+
+/-! ## Part 2 — invariants of the search -/
+
+/-- rows are aligned with members: every key of a family has exactly one row per member (row `i` belongs to
+    member `i`) -/
+theorem C11_rows_aligned (items : List T) (groups : Groups) (h : parseGroups items = .ok groups) :
+    ∀ e ∈ groups, ∀ kr ∈ e.2.1.bounds, kr.2.length = e.2.2.length := by
+  intro e he kr hkr
+  obtain ⟨e0, h0, rfl, _, _⟩ := parseGroups_group' h he (rowsAligned_inv _)
+  simp only [ABG.prune, List.mem_filter] at hkr
+  exact h0 kr hkr.1
+
+/-- every member's header is the family's header or one that `make_sets` recorded as generalised by it -/
+theorem C11_members_generalised (items : List T) (groups : Groups) (h : parseGroups items = .ok groups) :
+    ∀ e ∈ groups, ∀ b ∈ e.2.2,
+      groupIdOf b.item = e.1 ∨ ∃ σ, (groupIdOf b.item, σ) ∈ (parseEnv items).subsets.get e.1 := by
+  intro e he b hb
+  obtain ⟨e0, h0, rfl, _, _⟩ :=
+    parseGroups_group' h he (membersGeneralised_inv (parseEnv items) (mkBuckets_wf _))
+  exact h0 b hb
+
+/-- … hence the matcher answered yes: the member's header is an instance of the family's header
+    (`C09_sound_wf` turns the answer into `erase (inst σ id) = erase (member header)`) -/
+theorem C11_members_matched (items : List T) (groups : Groups) (h : parseGroups items = .ok groups) :
+    ∀ e ∈ groups, ∀ b ∈ e.2.2, groupIdOf b.item = e.1 ∨ ∃ σ l, sup e.1 (groupIdOf b.item) = .yes σ l := by
+  intro e he b hb
+  rcases C11_members_generalised items groups h e he b hb with h1 | ⟨σ, hσ⟩
+  · exact Or.inl h1
+  · obtain ⟨_, l, hl⟩ := makeSets_subsets hσ
+    exact Or.inr ⟨σ, l, hl⟩
+
+/-- every member of every family is one of the input blocks (a block of some bucket) -/
+theorem C11_members_from_buckets (items : List T) (groups : Groups) (h : parseGroups items = .ok groups) :
+    ∀ e ∈ groups, ∀ b ∈ e.2.2, ∃ bk ∈ mkBuckets (items.map mkBlk), b ∈ bk.2 := by
+  intro e he b hb
+  obtain ⟨e0, h0, rfl, _, _⟩ := parseGroups_group' h he (membersFromBuckets_inv (parseEnv items))
+  exact h0 b hb
+
+/-- and sits in the bucket of its own header -/
+theorem C11_buckets_by_header (items : List T) : ∀ bk ∈ mkBuckets (items.map mkBlk), ∀ b ∈ bk.2, groupIdOf b.item = bk.1 :=
+  mkBuckets_wf _
+
+/-- the general form: any per-group property established by `ABG.new` and preserved by `intersection` holds for
+    every candidate the search returns from a root -/
+theorem C11_search_invariant (env : Env) (GP : T × ABG × List Blk → Prop) (BP : T → Blk → Prop)
+    (H : SearchInv env GP BP) (fuel : Nat) (r : T) (sup : Supersets) (cands : List Groups) (sup' : Supersets)
+    (h : searchRec env fuel r (env.impls r) sup [] = .ok (cands, sup')) : ∀ g ∈ cands, ∀ e ∈ g, GP e :=
+  search_root_inv H h
+
+/-! ## Part 3 — partition -/
+
+/-- executable form of "no header generalises another one": `make_sets` finds no pair -/
+def noNesting (items : List T) : Bool := (msPairs ((mkBuckets (items.map mkBlk)).map (·.1))).isEmpty
+
+theorem noNesting_spec (items : List T) (h : noNesting items = true) : ∀ id, (parseEnv items).subsets.get id = [] := by
+  intro id
+  have hp : msPairs ((mkBuckets (items.map mkBlk)).map (·.1)) = [] := by simpa [noNesting] using h
+  simp only [parseEnv, makeSets_eq, hp, List.filter_nil, List.map_nil]
+  unfold Subsets.get
+  split
+  · next e hf =>
+    have := List.mem_of_find?_eq_some hf
+    obtain ⟨x, _, rfl⟩ := List.mem_map.1 this
+    rfl
+  · rfl
+
+/-- every block is placed exactly once — proved for inputs without nested headers (no header generalises another
+    one, so `unlock_subset_impl_groups` has nothing to unlock and every bucket is a root):
+    the members of all families are a rearrangement of the blocks of all buckets.
+
+    The full statement (same conclusion without `noNesting`) is open: it needs the counter discipline of
+    `searchUnlock` — that across the backtracking alternatives every header is unlocked exactly once, when its
+    superset counter reaches 0. What is proved towards it: `searchRec_placed` (the blocks handed to one call are
+    placed exactly once in every candidate, with distinct family headers) does not use `noNesting` except in the
+    final `searchUnlock` step. -/
+theorem C11_partition_partial (items : List T) (groups : Groups) (h : parseGroups items = .ok groups)
+    (hn : noNesting items = true) :
+    (groups.flatMap (fun e => e.2.2)).Perm ((mkBuckets (items.map mkBlk)).flatMap (fun bk => bk.2)) :=
+  parseGroups_partition_partial h (noNesting_spec items hn)
+
+/-- the buckets hold the input blocks: for pairwise different block texts, every input block is in the bucket of
+    its header and nothing else is -/
+theorem C11_buckets_hold_blocks (items : List T) (hnd : ((items.map mkBlk).map (·.item)).Nodup) :
+    ∀ bk ∈ mkBuckets (items.map mkBlk), bk.2 = (items.map mkBlk).filter (fun b => groupIdOf b.item == bk.1) :=
+  (mkBuckets_char _ hnd).1
+
+/-! ## Non-vacuity: the README example is accepted -/
+
+namespace Ex11
+def leaf (s : String) : T := .node s [] []
+def attrs : T := .node "Ign" [] [.node "List" [] []]
+def seg (x : String) : T := .node "PathSegment" [] [.node "Ident" [x] [], leaf "PathArguments::None"]
+def path (segs : List T) : T := .node "Path" [] [.node "IgnL" [] [leaf "None"], .node "List" [] segs]
+def tyPath (segs : List T) : T := .node "Type::Path" [] [leaf "None", path segs]
+def tyParam (x : String) (bounds : List T) : T :=
+  .node "GenericParam::Type" [] [.node "TypeParam" [] [attrs, .node "Ident" [x] [], leaf "None",
+    .node "List" [] bounds, leaf "None", leaf "None"]]
+def traitBound (p : T) : T :=
+  .node "TypeParamBound::Trait" [] [.node "TraitBound" [] [leaf "None", leaf "TraitBoundModifier::None", leaf "None", p]]
+/-- `Dispatch<Group = g>` -/
+def dispatch (g : String) : T :=
+  path [.node "PathSegment" [] [.node "Ident" ["Dispatch"] [], .node "PathArguments::AngleBracketed" [] [.node "Ign" [] [leaf "None"],
+    .node "List" [] [.node "GenericArgument::AssocType" [] [.node "AssocType" [] [.node "Ident" ["Group"] [], leaf "None", tyPath [seg g]]]]]]]
+def implOf (params : List T) (self : T) : T :=
+  .node "ItemImpl" [] [attrs, leaf "None", leaf "None",
+    .node "Generics" [] [leaf "Some", .node "List" [] params, leaf "Some", leaf "None"],
+    .node "Some" [] [.node "Tuple" [] [leaf "None", path [seg "Kita"]]], self, .node "List" [] []]
+/-- `impl<T: Dispatch<Group = g>> Kita for T {}` -/
+def blockFor (g : String) : T := implOf [tyParam "T" [traitBound (dispatch g)]] (tyPath [seg "T"])
+end Ex11
+
+theorem ParseResult.ok_of_check {r : ParseResult} {f : Groups → Bool}
+    (h : (match r with | .ok gs => f gs | _ => false) = true) : ∃ gs, r = .ok gs ∧ f gs = true := by
+  cases r with
+  | ok gs => exact ⟨gs, rfl, h⟩
+  | unableToForm _ => cases h
+  | panic _ => cases h
+
+set_option maxRecDepth 1000000 in
+/-- `impl<T: Dispatch<Group = GroupA>> Kita for T` and `… GroupB …`: accepted, one family with both blocks, one key,
+    two rows — so the hypotheses of the theorems above are satisfiable -/
+theorem C11_readme_example_accepted :
+    ∃ gs, parseGroups [Ex11.blockFor "GroupA", Ex11.blockFor "GroupB"] = .ok gs ∧
+      (gs.map (fun (e : T × ABG × List Blk) => (e.2.2.length, e.2.1.bounds.length, e.2.1.payloads.length)) == [(2, 1, 2)]) = true :=
+  ParseResult.ok_of_check (f := fun gs => gs.map (fun (e : T × ABG × List Blk) =>
+    (e.2.2.length, e.2.1.bounds.length, e.2.1.payloads.length)) == [(2, 1, 2)]) (by with_unfolding_all decide)
+
+set_option maxRecDepth 1000000 in
+/-- the README example has no nested headers, so `C11_partition_partial` applies to it -/
+example : noNesting [Ex11.blockFor "GroupA", Ex11.blockFor "GroupB"] = true := by with_unfolding_all decide
+
 end DI
